@@ -7,7 +7,7 @@ use ruint::Uint;
 use vmon::{an, au, big, gen, uint, Arg, Mon};
 
 vmon::widths!(exec; 0, 1, 2, 3, 7, 8, 16, 31, 32, 33, 60, 63, 64, 65, 100, 127, 128, 129, 160, 192, 193,
-    250, 255, 256, 257, 320, 384, 512, 521, 1024, 2048, 4096);
+    250, 255, 256, 257, 320, 384, 512, 521, 1024, 2048, 4096, 4160, 16448);
 
 /// Expected (value, lost-bits flag) of a left shift by `s`.
 fn shl_oracle(v: &BigUint, s: u128, bits: usize) -> (Vec<u64>, bool) {
